@@ -15,7 +15,7 @@ def one(sid):
         return sid, None, out[-400:]
     return sid, r, ""
 bad = 0
-with ThreadPoolExecutor(max_workers=4) as ex:
+with ThreadPoolExecutor(max_workers=7) as ex:
     for sid, r, err in ex.map(one, ids):
         mp = os.path.join(root, sid, "meta.json")
         meta = json.load(open(mp))
